@@ -791,9 +791,74 @@ class Spec:
         return ["ok", new]
 
 
+class IncludeNames(Stream):
+    """The observation point "include file names containing variables": after variable resolution the file name is taken
+    literally - a '$NAME' that survived (single-quoted text) is part of the name, not a reference to the environment; an
+    unquoted $name with an earlier definition takes that definition.  Oracle only (real files in a temporary directory)."""
+    name = "include_names"
+    cluster = "Vars"
+    CASES = ["include file '@D@/$VERIFINC.params'\n",
+             "f = '@D@/$VERIFINC.params'\ninclude file $f\n",
+             "s {\n  include file '@D@/$VERIFINC.params'\n}\n",
+             "VERIFINC = lit2\ninclude file @D@/$VERIFINC.params\n",
+             "include file \"@D@/$(VERIFINC).params\"\n",
+             "include file '@D@/~user.params'\n"]
+
+    def __init__(self, ctx):
+        super().__init__(ctx)
+        self.fp = import_freephil()
+
+    def corpus(self):
+        return list(self.CASES)
+
+    def cases(self, rng, tier):
+        return []
+
+    def impl(self, case):
+        import shutil, tempfile
+        d = tempfile.mkdtemp(prefix="c12inc_")
+        old = os.environ.get("VERIFINC")
+        try:
+            for name, val in (("$VERIFINC.params", "literal_file"), ("other.params", "environment"), ("lit2.params", "earlier_definition"),
+                              ("~user.params", "tilde_file")):
+                with open(os.path.join(d, name), "w") as f:
+                    f.write("a = %s\n" % val)
+            os.environ["VERIFINC"] = "other"
+            doc = case.replace("@D@", d)
+            try:
+                t = self.fp.parse(input_string=doc, process_includes=True)
+                got = [o.words[0].value for o in t.all_definitions() for o in [o.object] if o.name == "a"]
+            except RuntimeError as e:
+                return ["err", str(e).replace(d, "@D@")[:160]]
+            return ["ok", got]
+        finally:
+            if old is None:
+                os.environ.pop("VERIFINC", None)
+            else:
+                os.environ["VERIFINC"] = old
+            shutil.rmtree(d, ignore_errors=True)
+
+    def requests(self, case, o):
+        return []
+
+    def model(self, case, replies, o):
+        return o
+
+    WANT = {0: ["literal_file"], 1: ["literal_file"], 2: ["literal_file"], 3: ["earlier_definition"], 4: ["environment"], 5: ["tilde_file"]}
+
+    def prop(self, case, o):
+        want = self.WANT[self.CASES.index(case)]
+        if o != ["ok", want]:
+            return "the include line %r loaded %r, expected the file holding %r" % (case, o, want)
+        return None
+
+    def tag(self, case, o):
+        return o[0]
+
+
 SPEC = {
     "clusters": ["Vars"],
-    "streams": [Ident, Fragments, Documents],
+    "streams": [Ident, Fragments, Documents, IncludeNames],
     "rule": "ident: all strings to length 5/6 over 7 classes + random; fragments: all words to length 4/5 over 11 classes "
             "(those containing $) x quoted/unquoted + random to length 14 incl. all 256 code points; documents: exhaustive "
             "three-definition documents over 2 names x 5-6 word forms, 64 shadowing masks x 8 reference forms, each x 2 "
